@@ -75,6 +75,43 @@ def Simple (d : ColDef) : Bool :=
      | none => true
      | some t => isIdent t && !beginsWithKeyword columnKeywords t)
 
+/-! ### quoted names
+
+SQLite writes (and reads) a name inside `"…"`, `'…'` or back-ticks with every occurrence of the quote
+character doubled (`sqlite3Dequote`: a doubled quote character stands for itself, a single one
+ends the name). -/
+
+def isQuote (q : Char) : Bool := q == '"' || q == '\'' || q == '`'
+
+/-- the spelling of the inside of a quoted name: every `q` doubled -/
+def escapeQuote (q : Char) : List Char → List Char
+  | [] => []
+  | c :: cs => if c == q then q :: q :: escapeQuote q cs else c :: escapeQuote q cs
+
+/-- `name` quoted with `q` -/
+def quoteName (q : Char) (name : List Char) : List Char := q :: escapeQuote q name ++ [q]
+
+/-- a column definition with its name quoted -/
+def renderColQ (q : Char) (d : ColDef) : List Char :=
+  match d.type with
+  | none => quoteName q d.name
+  | some t => quoteName q d.name ++ ' ' :: t
+
+/-! ### block comments
+
+`withComments p [(b₁, q₁), …, (bₙ, qₙ)]` is the text `p /*b₁*/ q₁ … /*bₙ*/ qₙ`; `plainText` is the same
+text with the comments taken out.  SQLite's tokenizer ends a `/*` comment at the first `*/` after
+the two opening characters, so `/*` ++ b ++ `*/` is one whole comment exactly when `b` does not
+contain `*/` (a `b` that begins with "/" — the comment `/*/ … */` — included). -/
+
+def withComments : List Char → List (List Char × List Char) → List Char
+  | p, [] => p
+  | p, (b, q) :: rest => p ++ '/' :: '*' :: b ++ '*' :: '/' :: withComments q rest
+
+def plainText : List Char → List (List Char × List Char) → List Char
+  | p, [] => p
+  | p, (_, q) :: rest => p ++ plainText q rest
+
 /-- nesting depth after reading `s` from depth `d`, for text made of parentheses and characters
 that cannot start a comment or a quoted string; `none` when a ")" would close more than was
 opened or such a character occurs -/
